@@ -1245,7 +1245,8 @@ class Mode(Reduction):
     reduction_aggregate = staticmethod(_mode_aggregate)
 
     def _divisions(self):
-        return self.frame.divisions[0], self.frame.divisions[-1]
+        # The modes are labelled 0..n-1, not by the labels of the input
+        return (None, None)
 
     @property
     def chunk_kwargs(self):
